@@ -209,7 +209,8 @@ type Client struct {
 	inbox    []*Event
 	closed   bool
 	nextReq  uint32
-	nextPing uint32 // ids of barrier pings: a range disjoint from request ids
+	nextPing uint32        // ids of barrier pings: a range disjoint from request ids
+	paused   chan struct{} // non-nil while the reader is told to stop reading (a stalling client)
 	wmu      sync.Mutex
 
 	Timeout time.Duration
@@ -257,8 +258,33 @@ func Dial(id int, addr string, query url.Values, header map[string]string) (*Cli
 	return c, nil
 }
 
+// StopReading makes the client stall: its reader goroutine stops taking bytes
+// off the socket (after at most one more frame) until ResumeReading.
+func (c *Client) StopReading() {
+	c.mu.Lock()
+	if c.paused == nil {
+		c.paused = make(chan struct{})
+	}
+	c.mu.Unlock()
+}
+
+func (c *Client) ResumeReading() {
+	c.mu.Lock()
+	if c.paused != nil {
+		close(c.paused)
+		c.paused = nil
+	}
+	c.mu.Unlock()
+}
+
 func (c *Client) reader() {
 	for {
+		c.mu.Lock()
+		p := c.paused
+		c.mu.Unlock()
+		if p != nil {
+			<-p
+		}
 		var data []byte
 		err := websocket.Message.Receive(c.ws, &data)
 		if err != nil {
